@@ -55,7 +55,8 @@ def pspec(rng, shape, *, pz="id", signed=False, cplx=False, mix=False, normalise
             flat[r] = parts
         arr = np.moveaxis(flat.reshape(arr.shape), -1, normalise_axis)
         vals = arr.reshape(-1).tolist()
-    return {"shape": shape, "inner": inner, "vals": vals, "pz": pz, "mix": mix, "cplx": cplx}
+    const = pz == "id" and rng.random() < 0.15
+    return {"shape": shape, "inner": inner, "vals": vals, "pz": pz, "mix": mix, "cplx": cplx, "const": const}
 
 
 def build_param(ps: dict) -> P.Parameter:
@@ -66,7 +67,10 @@ def build_param(ps: dict) -> P.Parameter:
     else:
         arr = np.array(ps["vals"], dtype=np.float64).reshape(inner)
         dtype = DataType.REAL
-    t = P.TensorParameter(*inner, initializer=ConstantTensorInitializer(arr), dtype=dtype)
+    if ps.get("const"):
+        t = P.ConstantParameter(*inner, value=arr)
+    else:
+        t = P.TensorParameter(*inner, initializer=ConstantTensorInitializer(arr), dtype=dtype)
     p = P.Parameter.from_input(t)
     pz = ps.get("pz", "id")
     if pz == "softmax":
